@@ -17,6 +17,7 @@
   that accepts them; that rule is outside /repo and is not modelled).
 -/
 import PercevalModel.Found.SimSpec
+import PercevalModel.Found.SM
 
 open Matrix
 
@@ -171,22 +172,51 @@ structure Pre where
 
 def maxW (start : ℚ) (ms : List Member) : ℚ := (ms.map (·.w)).foldl max start
 
-/-- `_preprocess_svd` with `min_detected_photons_filter = 0` and pairwise distinct members/parts
-(no two keys of the dict coincide): relative threshold `max(min_p, max_p·precision)`, members at or
-below it are dropped, superpositions of unequal photon numbers are split and the threshold is
-applied again -/
+/-- equality of two keys of the `SVDistribution` dict, as far as it is decided here: two one-component
+state vectors on the same annotated basis state whose coefficients differ by a positive real factor
+normalise to the same `StateVector` (`c/|c|`), hence are ONE key.  State vectors of several components
+are compared by the native floating-point hash/equality: the harness never presents two of them that are
+positively proportional, so they are distinct keys here. -/
+def sameKey (a b : Member) : Bool :=
+  match a.terms, b.terms with
+  | [s], [t] => s.groups == t.groups && (s.coef * star t.coef).im == 0 &&
+      decide (0 < (s.coef * star t.coef).re)
+  | _, _ => false
+
+/-- `d[k] += w` on a dict of state vectors kept as an association list (a missing key is created at the
+end); also returns the new value of `d[k]` -/
+def partAdd : List Member → Member → List Member × ℚ
+  | [], x => ([x], x.w)
+  | y :: r, x =>
+    if sameKey y x then ({ y with w := y.w + x.w } :: r, y.w + x.w)
+    else ((y :: (partAdd r x).1), (partAdd r x).2)
+
+/-- `for k, p in xs: d[k] += p` -/
+def partAddAll (d xs : List Member) : List Member := xs.foldl (fun acc x => (partAdd acc x).1) d
+
+/-- `_preprocess_svd` with `min_detected_photons_filter = 0`: relative threshold
+`max(min_p, max_p·precision)`, members at or below it are dropped; superpositions of unequal photon numbers
+are split, their sectors are accumulated in the dict `to_add` (`to_add[split_sv] += prob`: equal sectors
+of two members add up) and then into the trimmed mixture (`trimmed_svd[sv] += p`: a sector that is
+already a member adds to that member's weight, `max_p` follows the accumulated value), and the threshold
+is applied again.  The members of the input are pairwise distinct keys. -/
 def preprocess (prec minp : ℚ) (ms : List Member) : Pre :=
   let maxp := maxW 0 ms
   let θ₁ := max minp (maxp * prec)
   let t₁ := ms.filter (θ₁ < ·.w)
   if t₁.any needsSplit then
-    let added := (t₁.filter needsSplit).flatMap splitByN
-    let all := t₁.filter (fun mb => !needsSplit mb) ++ added
-    let θ₂ := max minp (maxW maxp added * prec)
-    let kept := all.filter (θ₂ < ·.w)
+    let toAdd := partAddAll [] ((t₁.filter needsSplit).flatMap splitByN)
+    let acc := toAdd.foldl (fun (acc : List Member × ℚ) x =>
+      ((partAdd acc.1 x).1, max acc.2 (partAdd acc.1 x).2)) (t₁, maxp)
+    let θ₂ := max minp (acc.2 * prec)
+    let kept := acc.1.filter fun mb => !needsSplit mb && decide (θ₂ < mb.w)
     { kept := kept, θ := θ₂, superposed := kept.any (·.terms.length > 1) }
   else
     { kept := t₁, θ := θ₁, superposed := t₁.any (·.terms.length > 1) }
+
+/-- `∑ᵢ wᵢ · fᵢ(t)` over the entries of a dict of state vectors, `f` = the distribution of a member -/
+def mixAt (f : List Term → D) (ms : List Member) (t : Fock) : ℚ :=
+  (ms.map fun mb => mb.w * get (f mb.terms) t).sum
 
 /-- `res[k] += v` on a dict kept as an association list without duplicated keys -/
 def dictAdd : D → Fock → ℚ → D
@@ -309,5 +339,33 @@ def probsDM {m : ℕ} (U : Matrix (Fin m) (Fin m) GQ) (ρ : DM) (nmax : ℕ) : D
 def upperHalf [CommRing R] {n : ℕ} (half : R) (A : Matrix (Fin n) (Fin n) R) :
     Matrix (Fin n) (Fin n) R :=
   fun i j => if i < j then A i j else if i = j then half * A i j else 0
+
+/-! ### a long-lived `Simulator`: the cache `_evolve` of evolved groups (`_evolve_cache`), and queries that
+assemble their answer from it (`_evolve_no_compute`, `_merge_probability_dist`,
+`_construct_evolve_operator` → `evolve(fs)` for the populated basis states) -/
+
+section Session
+variable {K V A : Type} [DecidableEq K]
+
+/-- `_evolve_cache(input_list)`: what is not cached yet is computed by the backend and stored -/
+def cacheFill (compute : K → V) (cache : List (K × V)) (keys : List K) : List (K × V) :=
+  keys.foldl (fun c k => match c.lookup k with
+    | some _ => c
+    | none => (k, compute k) :: c) cache
+
+/-- a query: the cache keys it needs, and how its answer is assembled from the cache -/
+structure Query (K V A : Type) where
+  keys : List K
+  assemble : (K → Option V) → A
+
+/-- one call on the long-lived simulator -/
+def sessionStep (compute : K → V) (cache : List (K × V)) (q : Query K V A) : List (K × V) × A :=
+  (cacheFill compute cache q.keys, q.assemble fun k => (cacheFill compute cache q.keys).lookup k)
+
+/-- every cached value is the function of its key that the backend computes -/
+def CacheOk (compute : K → V) (cache : List (K × V)) : Prop :=
+  ∀ k v, cache.lookup k = some v → v = compute k
+
+end Session
 
 end PM.C03
